@@ -258,7 +258,7 @@ _PW_TRUST = ["Model/Pool.lean, Proofs/Pool.lean (hand-written model + invariant)
     "hooks pkg/eni/zz_verif_export.go (VerifSetLocker, VerifStateLocked, VerifRequestPtr, VerifSetRateLimit, VerifSyncPool, VerifSync)",
     "the harness's scheduling Locker and the labels it derives from goroutine stacks (function name, creator goroutine)",
     "fake cloud honouring the factory contract: a call that took effect returns what it created, also together with an error"]
-_PW_ASSUME = ["requests of one pod do not overlap (the daemon's pending-pod guard, C04); a repeat request is pinned to the ENI of the held address (AllocIP's setRequest)",
+_PW_ASSUME = ["requests of one pod do not overlap in the pool: neither two in flight (the daemon's pending-pod guard, C04) nor a new one while the reply goroutine of a cancelled, cache-served one has not run yet - the second half is NOT guaranteed by the code (known finding C01/exclusive/stale-reply-after-retry); the harness keeps a pod busy until that goroutine has run; a repeat request is pinned to the ENI of the held address (AllocIP's setRequest)",
     "the cloud hands out addresses an interface does not have yet, at most as many as asked for, and interface ids no slot has",
     "batch size <= per-ENI limit (for the create-call bound; assign calls are bounded without it)",
     "secondary ENIs only: trunk / ERDMA interfaces and pre-attached ENIs loaded at start-up (C05) are outside this model",
